@@ -548,38 +548,72 @@ func (c *Ctx) uniqueRootBranch(fi *FuncInfo) {
 		c.Undecided("GF", key, fi.Decl.Pos(), "results of LeastCommonAncestorUnrooted not found")
 		return
 	}
-	env := c.newLFEnv(info, fi.Decl.Body)
-	want := pAtom("len(" + nObj.Name() + ".br)").sub(pAtom("len(" + eObj.Name() + ")")).sub(pInt(1))
+	// the function itself, and the unexported helpers it hands the LCA node and the outgroup branches to
+	type unit struct {
+		f            *FuncInfo
+		nName, eName string
+	}
+	units := []unit{{fi, nObj.Name(), eObj.Name()}}
+	for _, call := range callsIn(fi.Decl.Body, true) {
+		g := calleeOf(info, call)
+		if g == nil || g.Exported() || g.Pkg() != fi.Obj.Pkg() {
+			continue
+		}
+		gi := c.FuncOfObj(g)
+		if gi == nil || gi.Decl.Body == nil {
+			continue
+		}
+		ni, ei := -1, -1
+		for i, a := range call.Args {
+			switch identObj(info, a) {
+			case nObj:
+				ni = i
+			case eObj:
+				ei = i
+			}
+		}
+		if ni >= 0 && ei >= 0 {
+			pn, pe := paramObj(gi.Pkg.TypesInfo, gi.Decl, ni), paramObj(gi.Pkg.TypesInfo, gi.Decl, ei)
+			if pn != nil && pe != nil {
+				units = append(units, unit{gi, pn.Name(), pe.Name()})
+			}
+		}
+	}
 	found := false
-	ast.Inspect(fi.Decl.Body, func(n ast.Node) bool {
-		is, ok := n.(*ast.IfStmt)
-		if !ok || found {
+	for _, u := range units {
+		info := u.f.Pkg.TypesInfo
+		env := c.newLFEnv(info, u.f.Decl.Body)
+		want := pAtom("len(" + u.nName + ".br)").sub(pAtom("len(" + u.eName + ")")).sub(pInt(1))
+		ast.Inspect(u.f.Decl.Body, func(n ast.Node) bool {
+			is, ok := n.(*ast.IfStmt)
+			if !ok || found {
+				return true
+			}
+			be, ok := unparen(is.Cond).(*ast.BinaryExpr)
+			if !ok || be.Op != token.NEQ {
+				return true
+			}
+			// body is an error return
+			if len(is.Body.List) == 0 {
+				return true
+			}
+			ret, ok := is.Body.List[len(is.Body.List)-1].(*ast.ReturnStmt)
+			if !ok || returnsNilError(info, ret) {
+				return true
+			}
+			l, e1 := env.fold(be.X)
+			r, e2 := env.fold(be.Y)
+			if e1 != nil || e2 != nil {
+				return true
+			}
+			d := l.sub(r)
+			if d.equal(want) || d.neg().equal(want) {
+				found = true
+				c.OK("GF", key, is.Pos(), "refused unless exactly one branch of the LCA lies outside the outgroup")
+			}
 			return true
-		}
-		be, ok := unparen(is.Cond).(*ast.BinaryExpr)
-		if !ok || be.Op != token.NEQ {
-			return true
-		}
-		// body is an error return
-		if len(is.Body.List) == 0 {
-			return true
-		}
-		ret, ok := is.Body.List[len(is.Body.List)-1].(*ast.ReturnStmt)
-		if !ok || returnsNilError(info, ret) {
-			return true
-		}
-		l, e1 := env.fold(be.X)
-		r, e2 := env.fold(be.Y)
-		if e1 != nil || e2 != nil {
-			return true
-		}
-		d := l.sub(r)
-		if d.equal(want) || d.neg().equal(want) {
-			found = true
-			c.OK("GF", key, is.Pos(), "refused unless exactly one branch of the LCA lies outside the outgroup")
-		}
-		return true
-	})
+		})
+	}
 	if !found {
 		c.Violation("GF", key, fi.Decl.Pos(), fmt.Sprintf("no error return guarded by `len(%s.br) - len(%s) != 1` (or an equivalent form): when the outgroup covers only part of a multifurcating node the root is placed on an arbitrary branch, the outgroup is not one of the two root clades and, with removal, other tips vanish", nObj.Name(), eObj.Name())).Clause = clause
 	}
@@ -589,71 +623,81 @@ func (c *Ctx) uniqueRootBranch(fi *FuncInfo) {
 // branches are met in both orientations; the two ends used for the cut must be assigned under
 // both `E.Right() == previous` and `E.Left() == previous`.
 func (c *Ctx) midpointBothOrientations(fi *FuncInfo) {
-	info := fi.Pkg.TypesInfo
 	key := "tree.Tree.RerootMidPoint/path-orientation"
 	clause := "Rerooting ... at the midpoint ... preserve ... every tip-to-tip path length"
-	// the two ends: receivers of the delNeighbor pair
-	var a, b types.Object
-	for _, call := range callsIn(fi.Decl.Body, false) {
-		if isRepoFunc(calleeOf(info, call), "tree", "Node", "delNeighbor") && len(call.Args) == 1 {
-			if sel, ok := unparen(call.Fun).(*ast.SelectorExpr); ok && a == nil {
-				a, b = identObj(info, sel.X), identObj(info, call.Args[0])
+	// RerootMidPoint and the unexported helpers of its package it calls (the walk may live in one)
+	units := []*FuncInfo{fi}
+	seen := map[*types.Func]bool{fi.Obj: true}
+	for i := 0; i < len(units) && len(units) < 12; i++ {
+		for _, call := range callsIn(units[i].Decl.Body, true) {
+			g := calleeOf(units[i].Pkg.TypesInfo, call)
+			if g == nil || seen[g] || g.Exported() || g.Pkg() != fi.Obj.Pkg() {
+				continue
+			}
+			if gi := c.FuncOfObj(g); gi != nil && gi.Decl.Body != nil {
+				seen[g] = true
+				units = append(units, gi)
 			}
 		}
 	}
-	if a == nil || b == nil {
-		c.Undecided("SYM", key, fi.Decl.Pos(), "the two ends of the cut branch (delNeighbor pair) not found")
-		return
-	}
-	// assignments X = E.right / E.left inside a loop
+	// assignments T = E.right / E.left (T a variable or a field of a local record) with the positive
+	// conditions on their path
 	type asg struct {
-		obj  types.Object
-		end  string
-		edge string
-		pos  string // canon of positive equality conjuncts
+		target, end, edge, pos string
 	}
-	var asgs []asg
-	ast.Inspect(fi.Decl.Body, func(n ast.Node) bool {
-		as, ok := n.(*ast.AssignStmt)
-		if !ok || len(as.Lhs) != 1 || len(as.Rhs) != 1 || as.Tok != token.ASSIGN {
+	ok := false
+	for _, u := range units {
+		info := u.Pkg.TypesInfo
+		var asgs []asg
+		ast.Inspect(u.Decl.Body, func(n ast.Node) bool {
+			as, isAs := n.(*ast.AssignStmt)
+			if !isAs || len(as.Lhs) != len(as.Rhs) || as.Tok != token.ASSIGN {
+				return true
+			}
+			for i := range as.Lhs {
+				k := c.canon(info, as.Rhs[i], nil)
+				var end string
+				switch {
+				case strings.HasSuffix(k, ".right"):
+					end = "right"
+				case strings.HasSuffix(k, ".left"):
+					end = "left"
+				default:
+					continue
+				}
+				conds, _ := c.pathConds(info, u.Decl.Body, as, true)
+				var ps []string
+				for _, cd := range conds {
+					if cd.Expr != nil && !cd.Neg {
+						ps = append(ps, c.canon(info, cd.Expr, nil))
+					}
+				}
+				asgs = append(asgs, asg{c.canon(info, as.Lhs[i], nil), end, strings.TrimSuffix(strings.TrimSuffix(k, ".right"), ".left"), strings.Join(ps, " && ")})
+			}
 			return true
-		}
-		o := identObj(info, as.Lhs[0])
-		if o != a && o != b {
-			return true
-		}
-		k := c.canon(info, as.Rhs[0], nil)
-		var end string
-		switch {
-		case strings.HasSuffix(k, ".right"):
-			end = "right"
-		case strings.HasSuffix(k, ".left"):
-			end = "left"
-		default:
-			return true
-		}
-		conds, _ := c.pathConds(info, fi.Decl.Body, as, true)
-		var ps []string
-		for _, cd := range conds {
-			if cd.Expr != nil && !cd.Neg {
-				ps = append(ps, c.canon(info, cd.Expr, nil))
+		})
+		// two targets a (the end met first) and b (the end met next): a = E.right under E.right == b
+		// (climbing) and a = E.left under E.left == b (descending)
+		for _, x := range asgs {
+			for _, y := range asgs {
+				if x.target != y.target || x.end != "right" || y.end != "left" {
+					continue
+				}
+				for _, bcand := range asgs {
+					b := bcand.target
+					if b == x.target {
+						continue
+					}
+					has := func(z asg, end string) bool {
+						return strings.Contains(z.pos, z.edge+"."+end+" == "+b) || strings.Contains(z.pos, b+" == "+z.edge+"."+end)
+					}
+					if has(x, "right") && has(y, "left") {
+						ok = true
+					}
+				}
 			}
 		}
-		asgs = append(asgs, asg{o, end, strings.TrimSuffix(strings.TrimSuffix(k, ".right"), ".left"), strings.Join(ps, " && ")})
-		return true
-	})
-	up, down := false, false
-	for _, x := range asgs {
-		has := func(end string) bool {
-			return strings.Contains(x.pos, x.edge+"."+end+" == "+b.Name()) || strings.Contains(x.pos, b.Name()+" == "+x.edge+"."+end)
-		}
-		if x.obj == a && x.end == "right" && has("right") {
-			up = true
-		}
-		if x.obj == a && x.end == "left" && has("left") {
-			down = true
-		}
 	}
-	c.Check(up && down, "SYM", key, fi.Decl.Pos(), "the ends of the cut branch are taken in both orientations (before and after the apex of the path)",
-		fmt.Sprintf("walking the longest path, the ends of the branch to cut are not assigned under both `E.Right() == %s` (climbing) and `E.Left() == %s` (descending after the apex): when the midpoint lies on the descending part the two pieces go to the wrong ends", b.Name(), b.Name())).Clause = clause
+	c.Check(ok, "SYM", key, fi.Decl.Pos(), "the ends of the cut branch are taken in both orientations (before and after the apex of the path)",
+		"walking the longest path, the ends of the branch to cut are not assigned under both `E.Right() == <previous node>` (climbing) and `E.Left() == <previous node>` (descending after the apex): when the midpoint lies on the descending part the two pieces go to the wrong ends").Clause = clause
 }
